@@ -678,8 +678,19 @@ func walkComponent(g *G, n int, opts map[string]string) *Out {
 		loadJSON(path, &w)
 		replay = w.Cases
 		n = len(replay)
+	} else if opts["nocorpus"] == "" {
+		// the volume walks come first, as if replayed
+		replay = walkVolume()
+		n += len(replay)
+	}
+	volume := len(replay)
+	if opts["replay"] != "" {
+		volume = 0
 	}
 	for i := 0; i < n; i++ {
+		if volume > 0 && i == volume {
+			replay = nil
+		}
 		var as *ASpec
 		var st *AState
 		var msgs []interface{}
@@ -775,6 +786,9 @@ func walkComponent(g *G, n int, opts map[string]string) *Out {
 		splitAgree, splitTried := true, 0
 		if r1.Outcome == "ok" && r1.W != nil && r1.W.Stopped == "Done" && len(msgs) >= 1 && bp.Kind == "none" {
 			for cut := 0; cut <= len(msgs); cut++ {
+				if len(msgs) > 24 && cut > 2 && cut < len(msgs)-2 && cut != len(msgs)/2 {
+					continue // a long batch: the cuts at both ends and in the middle
+				}
 				ra := runWalk(spec, st.core(), deepCopy(msgs[:cut], nil).([]interface{}), ctl, props, loop)
 				if ra.Outcome != "ok" || ra.W == nil || ra.W.Stopped != "Done" {
 					continue
@@ -867,6 +881,46 @@ func walkComponent(g *G, n int, opts map[string]string) *Out {
 		o.add(term, canon(as)+canon(st)+canon(msgs)+fmt.Sprint(limit)+canon(bp), nontrivial, sample)
 	}
 	return o
+}
+
+// walkVolume: walks longer than a buffer of strides or traces might be (a thousand and more steps in one Walk, a branch
+// whose pattern matches in hundreds of ways and whose guard declines every time)
+func walkVolume() []*walkCase {
+	echo := func(native bool) *ASpec {
+		return &ASpec{Nodes: map[string]*ANode{
+			"start": {HasBranches: true, Type: "message", Branches: []*ABranch{{Pattern: map[string]interface{}{"n": "?n"}, HasPattern: true, Target: "a"}}},
+			"a": {Action: &Act{Native: native, P: &Prog{Ops: []Op{{Kind: "emitb", K: "?n"}, {Kind: "copy", K: "?n", K2: "last"}, {Kind: "del", K: "?n"}}, Term: "bindings"}},
+				HasBranches: true, Type: "bindings", Branches: []*ABranch{{Target: "start"}}},
+		}}
+	}
+	batch := func(n int) []interface{} {
+		ms := make([]interface{}, n)
+		for i := range ms {
+			ms[i] = map[string]interface{}{"n": float64(i)}
+		}
+		return ms
+	}
+	likes := make([]interface{}, 300)
+	for i := range likes {
+		likes[i] = fmt.Sprintf("thing%d", i)
+	}
+	decline := func() *Act { return &Act{Native: true, P: &Prog{Term: "null"}} }
+	pat := func() interface{} { return map[string]interface{}{"likes": []interface{}{"?x"}} }
+	choosy := &ASpec{Nodes: map[string]*ANode{
+		"start": {HasBranches: true, Type: "message", Branches: []*ABranch{
+			{Pattern: pat(), HasPattern: true, Guard: decline(), Target: "a"},
+			{Pattern: pat(), HasPattern: true, Guard: decline(), Target: "b"},
+			{Pattern: map[string]interface{}{"likes": "?all"}, HasPattern: true, Target: "c"}}},
+		"a": {}, "b": {}, "c": {},
+	}}
+	none := &bpSpec{Kind: "none"}
+	st := func() *AState { return &AState{Node: "start", Bs: map[string]interface{}{}} }
+	return []*walkCase{
+		{Spec: echo(true), State: st(), Msgs: batch(700), Limit: 3000, Bp: none},
+		{Spec: echo(false), State: st(), Msgs: batch(600), Limit: 1100, Bp: none}, // the limit strikes after 550 messages
+		{Spec: echo(true), State: st(), Msgs: batch(40), Limit: -1, Bp: none},
+		{Spec: choosy, State: st(), Msgs: []interface{}{map[string]interface{}{"likes": likes}}, Limit: 10, Bp: none},
+	}
 }
 
 func anyGuard(nd *ANode) bool {
